@@ -4,6 +4,27 @@ from .. import oracles, scen
 from . import protocommon as pc
 
 
+def _absval(out, keys_of):
+    """replay the event-level value model (Abs/Values.v) on every real trace, for the keys given"""
+    import subprocess, os
+    from .. import core
+    n = 0
+    if not os.path.exists(core.DRIVER):
+        return 0
+    for r in out['results']:
+        if not r['ok'] or r['name'].startswith('corpus_'):
+            continue
+        for (h, t) in keys_of(r['name']):
+            rc, o = core.run([core.DRIVER, 'absval', r['trace_path'], str(h), str(t)], timeout=120)
+            n += 1
+            for l in o.split('\n'):
+                if l.startswith('DIFF'):
+                    out['diffs'].append('%s [value model, key %s/%s]: %s' % (r['name'], h, t, l[:400]))
+            if rc not in (0, 1):
+                out['diffs'].append('%s: value-model replay failed: %s' % (r['name'], o[-200:]))
+    return n
+
+
 def _tier(ctx, quick, thorough):
     return quick if ctx['tier'] == 'quick' else thorough
 
@@ -52,6 +73,8 @@ def run_c02(ctx):
     jobs, metas = _jobs_from(scen.values_clean, 'C02', ctx['seed'], n)
     jobs = pc.corpus_jobs(['S1_*.scn', 'S2_*.scn', 'S15*.scn']) + jobs
     out = pc.run_scenarios('C02', ctx, jobs, [_with_meta(metas, _c02_oracle)], nontrivial=pc.received_kinds)
+    nabs = _absval(out, lambda name: sorted(metas[name]['last_value'].keys()) if name in metas else [])
+    out['opstats']['value_model_replays'] = nabs
     return pc.make_result('C02', ctx, out, 'frames of drain-separated multi-writer histories over 1..3 component types incl. Transform/Visibility/lights/Name; non-trivial = distinct (scenario, receiver, kind, uuid) received')
 
 
@@ -212,6 +235,8 @@ def run_c10(ctx):
     metas['corpus_S1_second_update_skipped'] = dict(key=('1', 0), writer=0)
     metas['corpus_S2_fix_reinsert_stale'] = dict(key=('1', 2), writer=1)
     out = pc.run_scenarios('C10', ctx, jobs, [_with_meta(metas, _c10_oracle)], nontrivial=pc.received_kinds)
+    nabs = _absval(out, lambda name: [metas[name]['key']] if name in metas and not name.startswith('corpus_') else [])
+    out['opstats']['value_model_replays'] = nabs
     return pc.make_result('C10', ctx, out, 'frames of single-writer histories (bursts in consecutive frames, pauses, all relative pacings, unrelated traffic); the value displayed by every other peer after EVERY frame is checked to be a subsequence of the written values; non-trivial = distinct (scenario, receiver, kind, key) received')
 
 
